@@ -55,6 +55,17 @@ SYSTEMS = {
         }},
 }
 
+# a solution with strongly negative g(r) (MSA with the hard-core flag on a repulsive tail at low temperature: g = 1 - u/kT
+# dips below -1 next to the core): nothing in the post-processing may "repair" the stored arrays
+SYSTEMS['neg'] = {
+    'types': ['U', 'V'], 'kT': 0.5, 'domain': {'length': 128, 'dr': 0.1},
+    'density': {'U': 0.05, 'V': 0.03}, 'diameter': {'U': 1.0, 'V': 1.2},
+    'pairs': {
+        'U|U': {'closure': ['MSA', True], 'potential': ['WCA', {'epsilon': 1.0}], 'omega': ['SingleSite', {}]},
+        'U|V': {'closure': ['MSA', True], 'potential': ['WCA', {'epsilon': 1.5}], 'omega': ['NoIntra', {}]},
+        'V|V': {'closure': ['PY', False], 'potential': ['HS', {}], 'omega': ['SingleSite', {}]},
+    }}
+
 TOL_EXACT = 1e-9      # relative to the scale of the reference, no re-solve in the history
 TOL_RESOLVED = 1e-6   # after a re-solve: accuracy of two converged solves (both polished to 1e-11)
 ARRS = ('totalCorr', 'directCorr', 'omega')
@@ -420,9 +431,9 @@ def _seq_worker(item):
 
 
 def run(rec, tier, seed):
-    plan = {'quick': {'bin': 3, 'ter': 2}, 'thorough': {'bin': 4, 'ter': 4}}[tier]
+    plan = {'quick': {'bin': 3, 'ter': 2, 'neg': 2}, 'thorough': {'bin': 4, 'ter': 4, 'neg': 3}}[tier]
     fix = True
-    for sysname in ('bin', 'ter'):
+    for sysname in ('bin', 'ter', 'neg'):
         fix = bfs(rec, sysname) and fix
     rec.note('fixpoint', fix)
     items = []
